@@ -1768,6 +1768,7 @@ class Ctx:
         return NS(d)
 
     def check_inv(self, spec, k, stage, line, **extra):
+        self.inv_mode = "check"  # lets an invariant skolemise its universal quantifiers when it is used as a goal
         try:
             inv = spec.inv(self.ns(**extra))
         except (KeyError, AttributeError) as e:
@@ -1779,6 +1780,7 @@ class Ctx:
             self.oblige(f"inv-{stage}@loop{k}:{lab}", "inv-" + stage, c, line)
 
     def assume_inv(self, spec, k, **extra):
+        self.inv_mode = "assume"
         try:
             inv = spec.inv(self.ns(**extra))
             facts = spec.facts(self.ns(**extra)) if spec.facts else []
